@@ -160,7 +160,7 @@ func init() {
 		if m.cfg.ReplayVals != nil {
 			return nil
 		}
-		m.pc = append(m.pc, c)
+		m.pushPC(c)
 		m.solver.Assert(c)
 		m.axioms++
 		if m.model != nil && m.ts.Eval(c, m.model) != 1 {
